@@ -260,7 +260,7 @@ def check_case(part, row, case):
 
 def plan(row, tier, seed, full):
     cases = []
-    zkinds = ["1", "2diff", "1ooc", "1hooh_scr", "2h2_h2o"] if not full else list(mol.ZPRIME)
+    zkinds = ["1", "2diff", "1ooc", "1hooh_scr", "2h2_h2o", "2ar_h2o", "2h2o_ar", "1ar"] if not full else list(mol.ZPRIME)
     if full:
         centres = list(itertools.product(mol.CENTRES, repeat=3))
         orients = (0, 1, 2)
